@@ -732,6 +732,8 @@ fn create_parent_dirs(
 /// If the existing file points to ".git" or ".jj", this function returns an
 /// error.
 fn remove_old_file(disk_path: &Path) -> Result<bool, CheckoutError> {
+    #[cfg(jj_vcs_jj_verif)]
+    let _verif = crate::verif_hooks::scope("wc.remove_file", &disk_path.display());
     reject_reserved_existing_path(disk_path)?;
     match fs::remove_file(disk_path) {
         Ok(()) => Ok(true),
@@ -2057,6 +2059,8 @@ impl TreeState {
         exec_bit: ExecBit,
         apply_eol_conversion: bool,
     ) -> Result<FileState, CheckoutError> {
+        #[cfg(jj_vcs_jj_verif)]
+        let _verif = crate::verif_hooks::scope("wc.write_file", &disk_path.display());
         let mut file = File::options()
             .write(true)
             .create_new(true) // Don't overwrite un-ignored file. Don't follow symlink.
@@ -2099,6 +2103,8 @@ impl TreeState {
     }
 
     fn write_symlink(&self, disk_path: &Path, target: String) -> Result<FileState, CheckoutError> {
+        #[cfg(jj_vcs_jj_verif)]
+        let _verif = crate::verif_hooks::scope("wc.write_symlink", &disk_path.display());
         let target = symlink_target_convert_to_disk(&target);
 
         if cfg!(windows) {
@@ -2141,6 +2147,8 @@ impl TreeState {
         contents: &[u8],
         exec_bit: ExecBit,
     ) -> Result<FileState, CheckoutError> {
+        #[cfg(jj_vcs_jj_verif)]
+        let _verif = crate::verif_hooks::scope("wc.write_conflict", &disk_path.display());
         let contents = self
             .target_eol_strategy
             .convert_eol_for_update(contents)
